@@ -249,7 +249,22 @@ func C08(x *Ctx, r *core.Result) {
 	for _, hm := range handlerMachines {
 		x.handlerBisim(r, c, hm.name, hm.ref(), hm.isObj)
 	}
-	r.CheckFloor(c, 14)
+	// SkipValueFast: success-with-offset inclusion in SkipValue (C11)
+	if A, _ := x.Composed("skipValue"); A != nil {
+		if B, _ := x.Composed("skipValueFast"); B != nil && A.CheckTotal() == nil && B.CheckTotal() == nil {
+			st, mm := product.Inclusion(A, B)
+			c.Instances++
+			c.Obligations += st.Cells
+			c.Discharged += st.Cells - min(len(mm), st.Cells)
+			for i, m := range mm {
+				if i >= 4 {
+					break
+				}
+				r.Findings = append(r.Findings, core.Finding{Rule: c.Rule, Key: "skipValueFast:" + m.Key(), Pos: m.ImplPos, Msg: "SkipValueFast disagrees with SkipValue on well-formed input: " + m.Msg, Witness: fmt.Sprintf("%q", m.Witness), Reason: "violation"})
+			}
+		}
+	}
+	r.CheckFloor(c, 15)
 	r.NotDecided = append(r.NotDecided, "the universally quantified family of user-written decoders itself: the result follows by induction on nesting from R08a-c (a decoder that returns the offset a library call reported hands the machine the exact length relative to the slice it was given; the machine resumes on the value's last byte and validates what was declined) — argued in DESIGN.md, not computed")
 	r.Explain = "library-side obligations of offset composition decided on SSA (linear re-basing) and on the extracted transition systems"
 }
